@@ -77,7 +77,8 @@ def gen(rnd):
         tag = rnd.choice([None, 'runtime'])
         if tag:
             kw += f", install_tag: {q(tag)}"
-        lines.append(f"install_subdir('tree', {kw})")
+        # the directory may be written with a trailing slash: the same directory, the same destinations
+        lines.append(f"install_subdir({q(rnd.choice(['tree', 'tree', 'tree/']))}, {kw})")
         base = P + '/share/tr' + ('' if strip else '/tree')
         dirs = set()
         for t in tree:
